@@ -18,7 +18,42 @@
 #include <malloc.h>
 
 void* __real_realloc(void*, size_t);
+void* __real_malloc(size_t);
+void* __real_calloc(size_t, size_t);
 void  __real_free(void*);
+
+/* every block the library (and the harness) obtained from malloc/calloc/realloc, with the size that was
+   REQUESTED: bytes beyond the request are not the caller's, whatever malloc_usable_size says */
+#define NBLOCKS 16384
+static struct { char* p; size_t n; } blocks[NBLOCKS];
+static int nblocks = 0, blocks_lost = 0;
+
+static void blk_add(void* p, size_t n) {
+  if (!p) return;
+  if (nblocks == NBLOCKS) { blocks_lost = 1; return; }
+  blocks[nblocks].p = p; blocks[nblocks].n = n; nblocks++;
+}
+
+static void blk_del(void* p) {
+  for (int i = nblocks - 1; i >= 0; i--) {
+    if (blocks[i].p == (char*)p) { blocks[i] = blocks[--nblocks]; return; }
+  }
+}
+
+/* the live block that contains address a, or -1 */
+static int blk_find(const char* a) {
+  for (int i = 0; i < nblocks; i++) {
+    if (blocks[i].p <= a && a < blocks[i].p + blocks[i].n) return i;
+  }
+  return -1;
+}
+
+/* Every block gets SLACK extra bytes that are not recorded: a write a few bytes past the requested size
+   then lands in the slack instead of malloc's bookkeeping, the case runs on, and the layout test below
+   reports the overrun itself (with the requested size) instead of glibc aborting somewhere later. */
+#define SLACK 128
+void* __wrap_malloc(size_t n) { void* p = __real_malloc(n + SLACK); blk_add(p, n); return p; }
+void* __wrap_calloc(size_t a, size_t b) { void* p = __real_calloc(1, a * b + SLACK); blk_add(p, a * b); return p; }
 
 static volatile int armed = 0;
 static char *o_lo = NULL, *o_hi = NULL;       /* header .. end of body of the object under test */
@@ -37,17 +72,24 @@ static int contains_obj(void* p) {
 }
 
 void __wrap_free(void* p) {
-  if (!armed || p == NULL) { __real_free(p); return; }
+  if (!armed || p == NULL) { blk_del(p); __real_free(p); return; }
   if (p == o_buf) { fb++; return; }
   int was = armed; armed = 0;
   int hit = contains_obj(p);
   armed = was;
   if (hit) { fo++; return; }
+  blk_del(p);
   __real_free(p);
 }
 
+static void* real_realloc_tracked(void* p, size_t n) {
+  void* q = __real_realloc(p, n + SLACK);
+  if (q) { blk_del(p); blk_add(q, n); }
+  return q;
+}
+
 void* __wrap_realloc(void* p, size_t n) {
-  if (!armed || p == NULL) return __real_realloc(p, n);
+  if (!armed || p == NULL) return real_realloc_tracked(p, n);
   if (p == o_buf) {
     rb++;
     void* q = malloc(n ? n : 1);
@@ -59,7 +101,7 @@ void* __wrap_realloc(void* p, size_t n) {
   int hit = contains_obj(p);
   armed = was;
   if (hit) { ro++; return malloc(n ? n : 1); }
-  return __real_realloc(p, n);
+  return real_realloc_tracked(p, n);
 }
 
 /* ------------------------------------------------------------------ user types (static, see FRAMEWORK pitfalls) */
@@ -189,6 +231,55 @@ static int usable(var e) {
   return ok && head_same(e);
 }
 
+/* ------------------------------------------------------------------ where the bytes really are
+   A region = header + size(type) bytes of one object.  For an object that lives in malloc'ed storage (class
+   Heap or Data) the whole region must lie inside ONE block the library requested, and the regions of all
+   objects a container hands out (every element; every key and every value) must be pairwise disjoint - i.e.
+   size(type) bytes are usable without running past the block or into a neighbour's header (the layout
+   lemmas of coq/HeaderProofs.v say where things must be; this checks the real pointers). */
+struct region { char* lo; char* hi; };
+
+static int region_of(var x, struct region* r) {
+  var t = type_of(x);
+  size_t n = (t is Type) ? 0 : size(t);
+  r->lo = (char*)header(x);
+  r->hi = (char*)x + n;
+  return 1;
+}
+
+static int region_in_block(struct region* r) {
+  int i = blk_find(r->lo);
+  if (i < 0) return 0;
+  return r->hi <= blocks[i].p + blocks[i].n;
+}
+
+#define MAXREG 256
+static int layout_ok(var e, var cont, long acode) {
+  static struct region rs[MAXREG];
+  int n = 0;
+  if (blocks_lost) return 1;
+  if (acode == AllocHeap || acode == AllocData) {
+    struct region r; region_of(e, &r);
+    if (!region_in_block(&r)) return 0;
+  }
+  if (!cont) return 1;
+  var ct = type_of(cont);
+  if (ct is Array or ct is List) {
+    foreach (x in cont) { if (n < MAXREG) region_of(x, &rs[n++]); }
+  } else if (ct is Table or ct is Tree) {
+    foreach (k in cont) {
+      if (n + 1 < MAXREG) { region_of(k, &rs[n++]); region_of(get(cont, k), &rs[n++]); }
+    }
+  } else return 1;
+  for (int i = 0; i < n; i++) {
+    if (!region_in_block(&rs[i])) return 0;
+    for (int j = 0; j < i; j++) {
+      if (rs[i].lo < rs[j].hi && rs[j].lo < rs[i].hi) return 0;
+    }
+  }
+  return 1;
+}
+
 static int is_deleting(const char* op) { return !strncmp(op, "del", 3) || !strncmp(op, "dealloc", 7); }
 
 /* ------------------------------------------------------------------ one operation */
@@ -285,6 +376,24 @@ static void run_case(char* line) {
       } else {
         for (int i = 2; i < 26; i++) set(cont, proto(K, i), proto(V, i & 1));
         for (int i = 2; i < 9; i++) rem(cont, proto(K, i));
+      }
+    } catch (ex) { exn = ex; }
+  }
+  /* "+c": the element is taken from copy(container); "+a": from assign(fresh empty container, container).
+     (Array_Assign, List_Assign, Table_Assign, Tree_Assign recompute element types and sizes on their own.) */
+  if (!exn && cont && (strstr(pa, "+c") || strstr(pa, "+a"))) {
+    try {
+      if (strstr(pa, "+c")) {
+        keep2 = copy(cont);
+        cont = keep2;
+      } else {
+        var fresh = NULL;
+        if (!strncmp(pa, "Array", 5)) fresh = new_raw(Array, Int);
+        else if (!strncmp(pa, "List", 4)) fresh = new_raw(List, Int);
+        else if (!strncmp(pa, "Table", 5)) fresh = new_raw(Table, Int, Int);
+        else fresh = new_raw(Tree, Int, Int);
+        assign(fresh, cont);
+        cont = fresh;
       }
     } catch (ex) { exn = ex; }
   }
@@ -391,7 +500,11 @@ static void run_case(char* line) {
   P("T=%s A=%ld R=%d D=%d", name_of_type(et), acode, registered, declared);
   fflush(OUT);
   track(e);
-  int use = usable(e);
+  int lay = 0;
+  exn = NULL;
+  try { lay = layout_ok(e, cont, acode); } catch (ex) { exn = ex; }
+  if (exn) lay = 0;
+  int use = lay ? usable(e) : 0;      /* do not write past a block the layout test already rejected */
 
   char* ops = f_ops;
   char* op;
@@ -411,7 +524,7 @@ static void run_case(char* line) {
     if (show) P("%d%d", body_same(e), buf_same()); else P("--");
     fflush(OUT);
   }
-  P(" ; use=%d", use);
+  P(" ; use=%d lay=%d", use, lay);
 }
 
 int main(int argc, char** argv) {
